@@ -414,7 +414,35 @@ func TestVerif_C14_TagOperatorsAndTokenNames(t *testing.T) {
 			res.violate("r10Aliased: %v", err)
 		}
 	}
+	// an anonymous struct type that is a production implemented by user code (it embeds a Parseable)
+	res.Evaluations++
+	res.Distinct++
+	if p, err := participle.Build[r10AnonParseable](); err != nil {
+		res.violate("Build[r10AnonParseable]: %v", err)
+	} else if tree, err := ebnf.ParseString(p.String()); err != nil {
+		res.violate("r10AnonParseable: not parseable: %v: %q", err, p.String())
+	} else if len(tree.Productions) == 0 || tree.Productions[0].Production != "R10AnonParseable" || len(tree.Productions[0].Expression.Alternatives) != 1 || len(tree.Productions[0].Expression.Alternatives[0].Terms) != 2 {
+		res.violate("r10AnonParseable: the root is not first or does not refer to its two sub-productions: %q", p.String())
+	}
 	res.emit(t)
+}
+
+type r10Par struct{ X string }
+
+func (p *r10Par) Parse(lex *lexer.PeekingLexer) error {
+	tok := lex.Next()
+	if tok.EOF() {
+		return participle.NextMatch
+	}
+	p.X = tok.Value
+	return nil
+}
+
+type r10AnonParseable struct {
+	A struct {
+		r10Par
+	} `@@`
+	B *r10Par `@@`
 }
 
 // ---- C18: mapper options given before the Lexer option ----
@@ -453,3 +481,66 @@ func TestVerif_C18_MappersBeforeLexerOption(t *testing.T) {
 }
 
 var _ = fmt.Sprint
+
+// ---- C17 / C06: a numeric capture whose only token is the EOF token fails with a located error ----
+
+type r10EOFInt struct {
+	Name string `@Ident`
+	End  int    `@EOF`
+}
+type r10EOFChoice struct {
+	Name  string    `@Ident`
+	Value []float64 `@( Float | EOF )`
+}
+
+func TestVerif_C17C06_CaptureOfEOF(t *testing.T) {
+	res := &xResult{Check: "numeric capture of the EOF token", Property: "C17 C06", Exhaustive: true,
+		Bound: "2 grammars capturing the EOF token into an int / a []float64; 3 inputs; with and without a filename",
+		Rule: "(grammar, input, filename) triples; all non-trivial"}
+	check := func(name, file, in string, err error, line, col int) {
+		res.Evaluations++
+		res.Distinct++
+		if err == nil {
+			res.violate("%s: input %q: the empty text of the EOF token was stored as a number", name, in)
+			return
+		}
+		var perr participle.Error
+		if e, ok := err.(participle.Error); ok {
+			perr = e
+		} else {
+			res.violate("%s: input %q: the error is a %T, not a participle.Error: %v", name, in, err, err)
+			return
+		}
+		pos := perr.Position()
+		prefix := fmt.Sprintf("%d:%d:", line, col)
+		if file != "" {
+			prefix = file + ":" + prefix
+		}
+		if pos.Line != line || pos.Column != col || pos.Filename != file || !strings.HasPrefix(err.Error(), prefix) {
+			res.violate("%s: input %q: the conversion error is located at %v and reads %q, want it at %s", name, in, pos, err.Error(), prefix)
+		}
+	}
+	p1, err1 := participle.Build[r10EOFInt]()
+	p2, err2 := participle.Build[r10EOFChoice]()
+	if err1 != nil || err2 != nil {
+		res.violate("Build: %v %v", err1, err2)
+		res.emit(t)
+		return
+	}
+	for _, file := range []string{"", "demo.txt"} {
+		for in, at := range map[string][2]int{"x": {1, 2}, "x  ": {1, 4}, "x\n": {2, 1}} {
+			func() {
+				defer func() {
+					if r := recover(); r != nil {
+						res.violate("input %q: panic: %v", in, r)
+					}
+				}()
+				_, err := p1.ParseString(file, in)
+				check("End int `@EOF`", file, in, err, at[0], at[1])
+				_, err = p2.ParseString(file, in)
+				check("Value []float64 `@( Float | EOF )`", file, in, err, at[0], at[1])
+			}()
+		}
+	}
+	res.emit(t)
+}
